@@ -110,6 +110,12 @@ def inputs(tier):
     # two copies of the same ligand in different chains that carry the same residue number
     for lig, partner in (('ACT', 'LYS'), ('MAM', 'GLU'), ('PYR', 'ASP'), ('MGU', 'GLU')):
         out.append(dict(src='twochains', lig=lig, partner=partner))
+    # multi-conformation, multi-chain inputs (conformations are completed from each other by residue identity)
+    for lay in ([[' ', 'ASP'], ['B', 'ASPs']], [['A', 'ASP'], ['B', 'ALA']], [['A', 'ASP'], ['B', 'ASPs'], ['C', 'ASPnoCG']]):
+        out.append(dict(src='c08', d=dict(kind='alt', layout=lay)))
+        out.append(dict(src='c08', d=dict(kind='alt', layout=lay, partial=True)) if all(x[1] != 'ALA' for x in lay) else dict(src='c08', d=dict(kind='alt', layout=lay, pos='first')))
+    for lay in ([[1, 'ASP'], [2, 'ASPnoCG']], [[1, 'ASPnoCG'], [2, 'ASP'], [3, 'ALA']]):
+        out.append(dict(src='c08', d=dict(kind='model', layout=lay)))
     if tier == 'thorough':
         out += [dict(src='corpus', d=d) for d in corpus.whole_chains()]
     return out
@@ -146,7 +152,10 @@ def build_twochains(case, seed):
 
 
 def run_case(case, ctx, acc):
-    if case.get('src') == 'twochains':
+    if case.get('src') == 'c08':
+        from . import c08
+        s = c08.build(dict(case['d'], layout=[tuple(x) for x in case['d']['layout']]), ctx.seed)
+    elif case.get('src') == 'twochains':
         s = build_twochains(case, ctx.seed)
     else:
         s = corpus.build(case['d'], ctx.seed)
@@ -154,6 +163,10 @@ def run_case(case, ctx, acc):
     r0 = pk.record(pk.run(text0))
     trs, has_icode = transforms(s, ctx.tier)
     nt = any(any(g['dets'][t] for t in g['dets']) or g['energy_volume'] for g in r0['confs']['AVR']['groups'])
+    chain_ids = []
+    for a in s.atoms:
+        if a.chain not in chain_ids and a.chain != 'Z':
+            chain_ids.append(a.chain)
     sel0 = None
     if case.get('d', {}).get('t') == 'window':
         for g in r0['confs'][r0['conformations'][0]]['groups']:
@@ -169,6 +182,20 @@ def run_case(case, ctx, acc):
         twins = twin or has_twins(s) or has_twins(t)
         acc.case(nontrivial_key=jhash(sub) if nt else None, outcome='%s/%s' % (name.split('/')[0], 'twins' if twins else 'plain'))
         d = cmp.diff_records(r0, r1, tol=1e-9, keymap=keymap_of(f), labels=False)
+        if not d and name.startswith('chain/') and len(chain_ids) > 1:
+            # selecting a chain by its new id selects the same chain
+            for c0 in chain_ids[:2]:
+                c1 = f(c0, 1, ' ')[0]
+                try:
+                    ra = pk.record(pk.run(text0, ('-c', c0)))
+                    rb = pk.record(pk.run(text1, ('-c', c1)))
+                except ValueError:
+                    continue
+                dd = cmp.diff_records(ra, rb, tol=1e-9, keymap=keymap_of(f), labels=False)
+                acc.n += 1
+                if dd:
+                    d = [('chain-selection/' + dd[0][0],) + tuple(dd[0][1:])]
+                    break
         if not d and sel0 is not None and not twins:
             # the same residue named by its new label in a titrate-only list selects the same group
             c2, n2, i2 = f(*sel0)
